@@ -132,14 +132,14 @@ CHECKS = {
         design_ref="DESIGN.md section 4 C08",
     ),
     "C19": dict(
-        level="exploration",
+        level="model_checking",
         text="OrtFusion.tla models the fuse_xformers / optimize_for_ort pipeline protocol as named steps, the dimension unifier check_shape, and per "
              "fusion a guard transcribed from pattern()+check() against the constraints the fused contrib operator imposes (DesignOK: every fired "
              "fusion is safe; ProtocolOK); FusedMatMul.tla models the 14 fused-matmul rules as term rewriting with exact integer semantics (Eval "
              "preserved). TLC enumerates the configuration tuples (batch, sequence, heads, kv heads, head size, bias/mask/past, operand order, eps, "
              "axis, dtype); each is built as a real pattern instance, run through its fuse_* chain and optimize_for_ort, and fusion counts, fused-op "
              "census and ORT outputs before/after are compared.",
-        note="the numerical half is an observable equality on onnxruntime (CPU EP) with dtype tolerance on one random input per configuration; "
+        note="TLC decides the pipeline protocol, the unifier, the guard-vs-fused-operator-constraint tables and the exact FusedMatMul rewriting; the numerical half is an observable equality on onnxruntime (CPU EP) with dtype tolerance on one random input per configuration; "
              "com.microsoft.GroupNorm has no CPU kernel (structural only)",
         technique="TLA+ pipeline protocol + guard tables + exact FusedMatMul term rewriting, TLC exhaustive over configuration tuples, spec-directed replay on ORT",
         design_ref="DESIGN.md section 4 C19",
